@@ -1,5 +1,7 @@
 use crate::core::*;
 pub mod unify;
+pub mod parse;
+pub mod search;
 
 pub fn make(prop: &str, tier: Tier, seed: u64) -> Option<Box<dyn Workload>> {
     Some(match prop {
@@ -7,6 +9,13 @@ pub fn make(prop: &str, tier: Tier, seed: u64) -> Option<Box<dyn Workload>> {
         "C07" => Box::new(unify::C07::new(tier, seed)),
         "C08" => Box::new(unify::C08::new(tier, seed)),
         "C09" => Box::new(unify::C09::new(tier, seed)),
+        "C01" => Box::new(search::Search::new(search::Which::C01, tier, seed)),
+        "C02" => Box::new(search::Search::new(search::Which::C02, tier, seed)),
+        "C03" => Box::new(search::Search::new(search::Which::C03, tier, seed)),
+        "C04" => Box::new(search::Search::new(search::Which::C04, tier, seed)),
+        "C05" => Box::new(search::Search::new(search::Which::C05, tier, seed)),
+        "C11" => Box::new(search::Search::new(search::Which::C11, tier, seed)),
+        "C18" => Box::new(parse::C18::new(tier, seed)),
         _ => return None,
     })
 }
